@@ -1090,6 +1090,14 @@ func v2foreignProp(r *Rng, lo, hi int) psetv2.ProprietaryData {
 func v2genProps(r *Rng, low, lo, hi int) (l []psetv2.ProprietaryData) {
 	for n := r.Pick(1, 1, 2, 3); n > 0; n-- {
 		switch {
+		case r.Chance(18): // subtypes at the top of the byte range (a compact-size reader would take 0xfd..0xff
+			// for a length prefix) with short key data, under "pset" or a foreign identifier
+			id := []byte("pset")
+			if r.Chance(40) {
+				id = v2nearMissID(r)
+			}
+			l = append(l, psetv2.ProprietaryData{Identifier: id, Subtype: uint8(r.Pick(0xfc, 0xfd, 0xfe, 0xff)),
+				KeyData: r.Bytes(r.Pick(0, 1, 2, 4, 8)), Value: r.Bytes(r.Pick(0, 1, 20))})
 		case r.Chance(45):
 			l = append(l, v2foreignProp(r, lo, hi))
 		default:
